@@ -699,7 +699,38 @@ func feasibleSuccsH(b *ssa.BasicBlock, hist []*ssa.BasicBlock) (onTrue, onFalse 
 	}
 	base, pos := testedValue(ifi.Cond)
 	phi, ok := base.(*ssa.Phi)
-	if !ok || phi.Block() != b {
+	if !ok {
+		return true, true
+	}
+	if phi.Block() != b {
+		// a merged result tested a block or two after the merge (`exists, err := helper(); if err != nil {..};
+		// if !exists {..}` after inlining): the walk came through the phi's block, the block before it on the
+		// walk says which edge the phi took
+		for k := 0; k+1 < len(hist); k++ {
+			if hist[k] == nil || hist[k+1] == nil || hist[k] != phi.Block() {
+				continue
+			}
+			pi, cnt := -1, 0
+			for i, pr := range phi.Block().Preds {
+				if pr == hist[k+1] {
+					pi = i
+					cnt++
+				}
+			}
+			if pi < 0 || cnt != 1 || pi >= len(phi.Edges) {
+				return true, true
+			}
+			ev := phi.Edges[pi]
+			t := truthiness(ev, hist[k+1])
+			if t == 0 {
+				t = truthOnEdge(ev, hist[k+1], phi.Block())
+			}
+			if t == 0 {
+				return true, true
+			}
+			condTrue := (t > 0) == pos
+			return condTrue, !condTrue
+		}
 		return true, true
 	}
 	idx := -1
@@ -1367,7 +1398,7 @@ func atomsOf(v ssa.Value) map[string]bool {
 			}
 		case *ssa.Field:
 			out["field:"+fieldName(x.X.Type(), x.Field)] = true
-			if pr, isP := x.X.(*ssa.Parameter); isP && pr.Parent() != nil && pr.Parent().Signature.Recv() != nil && len(pr.Parent().Params) > 0 && pr.Parent().Params[0] == pr {
+			if isOwnReceiver(x.X) {
 				out["param:"+fieldName(x.X.Type(), x.Field)] = true
 			}
 			if srcs := fieldSources(v); len(srcs) != 1 || srcs[0] != v {
@@ -1402,7 +1433,7 @@ func atomsOf(v ssa.Value) map[string]bool {
 			out["field:"+fieldName(x.X.Type(), x.Field)] = true
 			// state a closure captured, moved into the fields of the handler object the method belongs to: a
 			// field of the method's own receiver answers to the captured variable's name as well
-			if pr, isP := x.X.(*ssa.Parameter); isP && pr.Parent() != nil && pr.Parent().Signature.Recv() != nil && len(pr.Parent().Params) > 0 && pr.Parent().Params[0] == pr {
+			if isOwnReceiver(x.X) {
 				out["param:"+fieldName(x.X.Type(), x.Field)] = true
 			}
 			walk(x.X, depth+1)
@@ -1454,6 +1485,35 @@ func atomsOf(v ssa.Value) map[string]bool {
 	}
 	walk(v, 0)
 	return out
+}
+
+// isOwnReceiver: v is the receiver of the method it is used in, or a copy of it (a value receiver handed on to an
+// inlined method of the same type).
+func isOwnReceiver(v ssa.Value) bool {
+	var fn *ssa.Function
+	switch x := v.(type) {
+	case *ssa.Parameter:
+		fn = x.Parent()
+	case ssa.Instruction:
+		fn = x.Parent()
+	}
+	if fn == nil || fn.Signature.Recv() == nil || len(fn.Params) == 0 {
+		return false
+	}
+	recv := fn.Params[0]
+	if v == ssa.Value(recv) {
+		return true
+	}
+	if !types.Identical(derefType(v.Type()), derefType(recv.Type())) {
+		return false
+	}
+	rs := terminalRoots(Origins(v, nil))
+	for _, rt := range rs {
+		if rt.Kind != "param" || rt.Val != ssa.Value(recv) {
+			return false
+		}
+	}
+	return len(rs) > 0
 }
 
 func hasAll(m map[string]bool, keys ...string) bool {
@@ -1694,12 +1754,45 @@ func flowsToReturn(f *ssa.Function, s retSite, cut []edge) bool {
 		return true
 	}
 	type st struct{ b, via *ssa.BasicBlock }
+	type item struct {
+		st
+		nils []ssa.Value // values known to be the site's nil on this walk (the phis it has flowed into)
+	}
 	done := map[st]bool{{s.phiB, s.pred}: true}
-	work := []st{{s.phiB, s.pred}}
+	var first []ssa.Value
+	if isNilConst(s.val) {
+		for _, in := range s.phiB.Instrs {
+			ph, isPhi := in.(*ssa.Phi)
+			if !isPhi {
+				break
+			}
+			for i, pr := range s.phiB.Preds {
+				if pr == s.pred && i < len(ph.Edges) && ph.Edges[i] == s.val {
+					first = append(first, ph)
+				}
+			}
+		}
+	}
+	work := []item{{st{s.phiB, s.pred}, first}}
 	for len(work) > 0 {
 		cur := work[len(work)-1]
 		work = work[:len(work)-1]
 		okT, okF := feasibleSuccs(cur.b, cur.via)
+		// a test of a value that is the site's nil on this walk is decided, however many merges lie in between
+		if len(cur.b.Succs) == 2 && len(cur.b.Instrs) > 0 && len(cur.nils) > 0 {
+			if ifi, isIf := cur.b.Instrs[len(cur.b.Instrs)-1].(*ssa.If); isIf {
+				base, pos := testedValue(ifi.Cond)
+				for _, nv := range cur.nils {
+					if base == nv {
+						if pos {
+							okT, okF = false, true
+						} else {
+							okT, okF = true, false
+						}
+					}
+				}
+			}
+		}
 		for i, su := range cur.b.Succs {
 			if cs[edge{cur.b, i}] || su == s.phiB {
 				continue
@@ -1708,12 +1801,60 @@ func flowsToReturn(f *ssa.Function, s retSite, cut []edge) bool {
 				continue
 			}
 			if su == s.ret.Block() {
-				return true
+				if len(cur.nils) == 0 || len(first) == 0 {
+					return true
+				}
+				// the value returned on this edge must be the site's nil (or a nil of its own), not another
+				// value merged in at the return block
+				carried := false
+				idx := errorResultIdx(f.Signature)
+				if idx >= 0 && idx < len(s.ret.Results) {
+					rv := s.ret.Results[idx]
+					if ph, isPhi := rv.(*ssa.Phi); isPhi && ph.Block() == su {
+						for k, pr := range su.Preds {
+							if pr == cur.b && k < len(ph.Edges) {
+								rv = ph.Edges[k]
+							}
+						}
+					}
+					if isNilConst(rv) {
+						carried = true
+					}
+					for _, nv := range cur.nils {
+						if rv == nv {
+							carried = true
+						}
+					}
+				} else {
+					carried = true
+				}
+				if carried {
+					return true
+				}
+				continue
 			}
 			n := st{su, cur.b}
 			if !done[n] {
 				done[n] = true
-				work = append(work, n)
+				nils := cur.nils
+				// the nil flows on into the phis of su that take a known-nil value on this edge
+				for _, in := range su.Instrs {
+					ph, isPhi := in.(*ssa.Phi)
+					if !isPhi {
+						break
+					}
+					for k, pr := range su.Preds {
+						if pr != cur.b || k >= len(ph.Edges) {
+							continue
+						}
+						for _, nv := range cur.nils {
+							if ph.Edges[k] == nv {
+								nils = append(append([]ssa.Value{}, nils...), ph)
+							}
+						}
+					}
+				}
+				work = append(work, item{n, nils})
 			}
 		}
 	}
